@@ -390,6 +390,9 @@ func (cs *ContractSet) parseContractFile(path, pkgPath string, external bool) er
 						return fail(l, "bad ghost update")
 					}
 					ac.Target = strings.TrimSpace(body[:i])
+					if strings.HasSuffix(ac.Target, "!") || strings.HasSuffix(ac.Target, "=") || strings.HasSuffix(ac.Target, "<") || strings.HasSuffix(ac.Target, ">") {
+						return fail(l, "bad ghost update target")
+					}
 					body = body[i+1:]
 				}
 				label, src := splitLabel(strings.TrimSpace(body))
